@@ -143,6 +143,14 @@ public:
   {
     if (empty())
     {
+      // Nothing left to read. Publish the bytes consumed so far even when they are fewer than a
+      // batch, otherwise a producer asking for more than (capacity - unpublished bytes) would wait
+      // forever on an empty queue
+      if (_atomic_reader_pos.load(std::memory_order_relaxed) != _reader_pos)
+      {
+        _atomic_reader_pos.store(_reader_pos, std::memory_order_release);
+      }
+
       return nullptr;
     }
 
